@@ -41,7 +41,7 @@ def batch(rng, n, multi_ok):
     out = []
     for _ in range(n):
         f = G.gff3_feature(rng, {"p_id": 0.6, "p_parent": 0.2, "p_name": 0.6, "seqids": ["chr1", "chr2"], "sources": ["src", "alt"],
-                                 "pool": [1, 5, 10, 20, 30], "ids": ["a", "b", "c", "d", "e", "f", "g", "h"]})
+                                 "pool": [1, 5, 10, 20, 30], "ids": ["a", "b", "c", "d", "e", "f", "g", "h", "g\u00e9ne", "\u00fcb"]})
         r = rng.random()
         if r < 0.08:
             # valueless id attribute
@@ -95,7 +95,7 @@ def gen(rng, tier):
     memory = fmt == "gff3" and rng.random() < 0.15
     if memory:
         steps = [st for st in steps if st["op"] not in ("reopen", "restart", "foreign")]
-    return {"fmt": fmt, "id_spec": spec, "steps": steps, "qseed": rng.getrandbits(32), "memory": memory,
+    return {"fmt": fmt, "id_spec": spec, "steps": steps, "qseed": rng.getrandbits(32), "memory": memory, "pct_nonascii": rng.random() < 0.5,
             "fault_profile": rng.random() < (0.1 if not memory else 0.5), "fault_seed": rng.getrandbits(32)}
 
 
@@ -250,6 +250,13 @@ def run(case):
             if fmt == "gtf":
                 kw.update({"disable_infer_genes": True, "disable_infer_transcripts": True})
             req = {"op": k, "h": "h", "data": G.source_spec(None, st["feats"], form=st["form"], d=d_), "kw": kw}
+            if case.get("pct_nonascii") and fmt == "gff3":
+                # the file spells non-ASCII characters as UTF-8 percent-escapes; the decoded value is the key
+                enc = lambda t: "".join(ch if ord(ch) < 128 else "".join("%%%02X" % b for b in ch.encode("utf-8")) for ch in t)
+                if "text" in req["data"]:
+                    req["data"]["text"] = enc(req["data"]["text"])
+                if "lines" in req["data"]:
+                    req["data"]["lines"] = [enc(x) for x in req["data"]["lines"]]
             if spec is not None:
                 req["id_spec"] = spec
             if k == "create":
